@@ -19,8 +19,30 @@ using R = rt::XV_RECL;
 using namespace hx;
 namespace xp = xenium::policy;
 
+#ifdef XV_STRKEY
+// a key type whose move constructor empties its source (std::string inside): code that keeps using a moved-from key shows up
+struct KeyT {
+  std::string s;
+  KeyT(long k = 0) { char b[24]; snprintf(b, sizeof b, "%012ld", k); xv::Quiet q; s = b; }   // NOLINT: implicit on purpose
+  KeyT(const KeyT& o) { xv::Quiet q; s = o.s; }
+  KeyT(KeyT&& o) noexcept { xv::Quiet q; s = std::move(o.s); o.s.clear(); }
+  KeyT& operator=(const KeyT& o) { xv::Quiet q; s = o.s; return *this; }
+  KeyT& operator=(KeyT&& o) noexcept { xv::Quiet q; s = std::move(o.s); o.s.clear(); return *this; }
+  ~KeyT() { xv::Quiet q; s.clear(); s.shrink_to_fit(); }
+  operator long() const { return s.empty() ? -1 : atol(s.c_str()); }   // NOLINT
+  friend bool operator<(const KeyT& a, const KeyT& b) { return a.s < b.s; }
+  friend bool operator==(const KeyT& a, const KeyT& b) { return a.s == b.s; }
+  friend bool operator!=(const KeyT& a, const KeyT& b) { return a.s != b.s; }
+  friend bool operator<=(const KeyT& a, const KeyT& b) { return a.s <= b.s; }
+  friend bool operator>(const KeyT& a, const KeyT& b) { return a.s > b.s; }
+  friend bool operator>=(const KeyT& a, const KeyT& b) { return a.s >= b.s; }
+};
+using Key = KeyT;
+#else
+using Key = long;
+#endif
 static int g_hashmode = 0;  // 0 identity, 1 constant, 2 mod 2
-struct XHash { std::size_t operator()(const long& k) const { return g_hashmode == 1 ? 7 : (g_hashmode == 2 ? (std::size_t)(k % 2) : (std::size_t)k); } };
+struct XHash { std::size_t operator()(const Key& kk) const { long k = (long)kk; return g_hashmode == 1 ? 7 : (g_hashmode == 2 ? (std::size_t)(k % 2) : (std::size_t)k); } };
 
 struct SetSpec {
   using State = std::set<long>;
@@ -59,12 +81,12 @@ struct HmAdapter : Adapter {
     const std::string& o = op.name; long k = op.args.empty() ? 0 : op.args[0];
     It& it = *its[tid];
     if (o == "ins") { bool r; if constexpr (IsMap) r = c->emplace(k, k * 10); else r = c->emplace(k); return r ? "new" : "old"; }
-    if (o == "insget") { if constexpr (IsMap) { auto r = c->emplace_or_get(k, k * 10); if ((*r.first).first != k || (*r.first).second != k * 10) return "BADVAL"; return r.second ? "new" : "old"; } else { auto r = c->emplace_or_get(k); if (*r.first != k) return "BADVAL"; return r.second ? "new" : "old"; } }
+    if (o == "insget") { if constexpr (IsMap) { auto r = c->emplace_or_get(k, k * 10); if ((long)(*r.first).first != k || (*r.first).second != k * 10) return "BADVAL"; return r.second ? "new" : "old"; } else { auto r = c->emplace_or_get(k); if ((long)*r.first != k) return "BADVAL"; return r.second ? "new" : "old"; } }
     if constexpr (IsMap) {
-      if (o == "getins") { auto r = c->get_or_emplace(k, k * 10); if ((*r.first).first != k || (*r.first).second != k * 10) return "BADVAL"; return r.second ? "new" : "old"; }
-      if (o == "getlazy") { auto r = c->get_or_emplace_lazy(k, [k]() { return k * 10; }); if ((*r.first).first != k || (*r.first).second != k * 10) return "BADVAL"; return r.second ? "new" : "old"; }
+      if (o == "getins") { auto r = c->get_or_emplace(k, k * 10); if ((long)(*r.first).first != k || (*r.first).second != k * 10) return "BADVAL"; return r.second ? "new" : "old"; }
+      if (o == "getlazy") { auto r = c->get_or_emplace_lazy(k, [k]() { return k * 10; }); if ((long)(*r.first).first != k || (*r.first).second != k * 10) return "BADVAL"; return r.second ? "new" : "old"; }
     } else {
-      if (o == "getins" || o == "getlazy") { auto r = c->emplace_or_get(k); if (*r.first != k) return "BADVAL"; return r.second ? "new" : "old"; }
+      if (o == "getins" || o == "getlazy") { auto r = c->emplace_or_get(k); if ((long)*r.first != k) return "BADVAL"; return r.second ? "new" : "old"; }
     }
     if (o == "del") return c->erase(k) ? "ok" : "no";
     if (o == "has") return c->contains(k) ? "yes" : "no";
@@ -176,8 +198,8 @@ struct HmAdapter : Adapter {
   }
 };
 
-template <size_t B, bool M> using MapT = xenium::harris_michael_hash_map<long, long, xp::reclaimer<R>, xp::buckets<B>, xp::memoize_hash<M>, xp::hash<XHash>>;
-using SetT = xenium::harris_michael_list_based_set<long, xp::reclaimer<R>>;
+template <size_t B, bool M> using MapT = xenium::harris_michael_hash_map<Key, long, xp::reclaimer<R>, xp::buckets<B>, xp::memoize_hash<M>, xp::hash<XHash>>;
+using SetT = xenium::harris_michael_list_based_set<Key, xp::reclaimer<R>>;
 
 static Case g_case;
 static Adapter* make() {
